@@ -905,6 +905,43 @@ def err_program(rng, pid, horizon):
     return p
 
 
+def lifted_program(rng, pid, horizon):
+    """two sources -> fdiv (the library's LIFTED integer floor division: a node with a specialised evaluator, not a static node)
+    -> post* -> rec, plus a branch that does not depend on it; the divisor is 0 in some cycles"""
+    nodes = [P.node("src", script=P.gen_script(rng, horizon, maxlen=5, values=(0, 4, 6, 7, 9))),
+             P.node("src", script=P.gen_script(rng, horizon, maxlen=5, values=(0, 0, 1, 2, 3)))]
+    nodes.append(P.node("fdiv", ins=[1, 2], cap=1))
+    prev = 3
+    for _ in range(rng.randint(0, 2)):
+        nodes.append(P.node(rng.choice(["pass", "add", "acc"]), ins=[prev], k=1))
+        prev = len(nodes)
+    nodes.append(P.node("rec", ins=[prev]))
+    nodes.append(P.node(rng.choice(["acc", "count", "add"]), ins=[rng.choice([1, 2])], k=2))
+    nodes.append(P.node("rec", ins=[len(nodes)]))
+    p = P.program(pid, nodes, start=1, end=horizon + 1)
+    p["_chain"] = (3, 3, prev)
+    return p
+
+
+def check_lifted_capture(chk, rng):
+    """error capture enabled on a lifted library operator (C15 'when error capture is enabled for a node')"""
+    n = 60 if chk.tier == "quick" else 800
+    progs = [lifted_program(rng, 40000 + i, rng.choice([5, 7])) for i in range(n)]
+    preds, res = dfcheck.predict(progs, tag="c15lift")
+    chk.add_tlc(res, "lifted-operator errors")
+    cases = []
+    for p in progs:
+        q = dict(p, capt=[[1003, [3]]])
+        cases.append(Case(q, preds[p["id"]], P.render(p, capture={3}), "lifted-node-capture"))
+        a, th, last = p["_chain"]
+        hi = rng.randint(th, last)
+        cases.append(Case(q, preds[p["id"]], P.render(p, group=(list(range(th, hi + 1)), [1, 2], hi), mode="nested", capture={3}), "lifted-nested-node-capture"))
+    execute(cases)
+    verdicts = validate(cases, chk, "c15lift")
+    judge("C15", cases, verdicts, chk, ("C15.",), stream_is_mine=True)
+    chk.notes["lifted_operator_exceptions"] = sum(len(c.pred["errs"]) for c in cases)
+
+
 def check_c15(chk, rng):
     n = 250 if chk.tier == "quick" else 3000
     progs = [err_program(rng, i + 1, rng.choice([5, 7])) for i in range(n)]
@@ -946,6 +983,7 @@ def check_c15(chk, rng):
     # behaviours replayed as scripted scheduler users inside a try_except sub-graph
     import abort_model
     abort_model.run(chk, rng)
+    check_lifted_capture(chk, rng)
     for c in cases[:3]:
         chk.sample({"scenario": c.scn.splitlines(), "specified_errors": c.pred["errs"], "specified_writes": c.pred["writes"][:12]})
     chk.coverage["rule"] = ("chains src -> pre* -> thrower -> post* with an independent branch; thrower captured per node, wrapped in try_except "
